@@ -166,6 +166,28 @@ VF_PROPERTY(archives_foreign_stream, 2, "a CSV / JSON / XML document written by 
 	for (size_t i = 0; i < want.size(); i++) if (got[i].name != want[i].name || got[i].n != want[i].n) c.fail("loaded text differs from the text in the encoded document", vf::cat(d, " row ", i, " got ", vf::hex(got[i].name.substr(0, 40)), " want ", vf::hex(want[i].name.substr(0, 40))));
 }
 
+VF_PROPERTY(archives_written_stream, 2, "records with non-ASCII text saved through the CSV / JSON / XML stream entry point with streamOptions.encoding = any of the 5 encodings, writeBom on/off and compact or pretty-printed (indent char and width generated): the bytes in the stream are exactly the BOM of that encoding (iff requested) followed by the reference encoding of the document that the same save gives in memory; also when the stream already holds data; non-trivial = non-UTF-8 encoding or pretty-printed with BOM")
+{
+	const int enc = static_cast<int>(c.src.draw(5)); const bool bom = c.src.chance(2, 3); const int which = static_cast<int>(c.src.draw(3)); const bool pretty = which != 0 && c.src.coin();
+	static const char32_t letters[] = { U'a', 0xE9, 0x416, 0x20AC, 0x1F600, U'z', 0x10FFFF, U'<', U'"', U',' };
+	std::vector<Row> rows(1 + c.src.draw(5)); for (auto& r : rows) { Scalars nm; size_t l = 1 + c.src.draw(c.src.chance(1, 4) ? 120 : 10); for (size_t k = 0; k < l; k++) nm.push_back(letters[c.src.draw(10)]); r.name = refutf::enc8(nm); r.n = static_cast<int>(c.src.draw(100000)); }
+	BitSerializer::SerializationOptions opt; opt.streamOptions.encoding = static_cast<UtfType>(enc); opt.streamOptions.writeBom = bom; opt.formatOptions.enableFormat = pretty; opt.formatOptions.paddingChar = c.src.coin() ? ' ' : '\t'; opt.formatOptions.paddingCharNum = static_cast<uint16_t>(1 + c.src.draw(4));
+	const std::string before = c.src.chance(1, 4) ? std::string("earlier\n") : std::string();
+	c.nontrivial = enc != refutf::U8 || (pretty && bom); c.label(vf::cat(which == 0 ? "csv " : which == 1 ? "json " : "xml ", pretty ? "pretty" : "compact", bom ? "+bom" : "-bom"));
+	c.describe(vf::cat("written ", which == 0 ? "csv " : which == 1 ? "json " : "xml ", refutf::enc_name(enc), bom ? "+bom" : "-bom", pretty ? vf::cat(" pretty ", static_cast<int>(opt.formatOptions.paddingChar), "x", opt.formatOptions.paddingCharNum) : std::string(" compact"), " rows=", rows.size(), " before=", before.size(), " h=", vf::hash_bytes(rows[0].name.data(), rows[0].name.size())));
+	std::string mem; std::ostringstream os; os << before;
+	try {
+		if (which == 0) { BitSerializer::SaveObject<CsvArchive>(rows, mem, opt); BitSerializer::SaveObject<CsvArchive>(rows, os, opt); }
+		else if (which == 1) { BitSerializer::SaveObject<JsonArchive>(rows, mem, opt); BitSerializer::SaveObject<JsonArchive>(rows, os, opt); }
+		else { BitSerializer::SaveObject<XmlArchive>(rows, mem, opt); BitSerializer::SaveObject<XmlArchive>(rows, os, opt); }
+	}
+	catch (const std::exception& e) { c.fail("saving valid text to an encoded stream fails", e.what()); }
+	Scalars doc; if (!refutf::dec8(mem, doc)) c.fail("the document saved in memory is not valid UTF-8", vf::hex(mem.substr(0, 80)));
+	const std::string want = before + (bom ? refutf::bom_bytes(enc) : std::string()) + refutf::enc_bytes(doc, enc), got = os.str();
+	if (got != want) { size_t i = 0; while (i < got.size() && i < want.size() && got[i] == want[i]) ++i;
+		c.fail("an archive's stream output is not BOM + the configured encoding of the document", vf::cat(which == 0 ? "csv " : which == 1 ? "json " : "xml ", refutf::enc_name(enc), bom ? "+bom" : "-bom", pretty ? " pretty" : " compact", " first difference at byte ", i, ": stream ", vf::hex(got.substr(i > 4 ? i - 4 : 0, 24)), " expected ", vf::hex(want.substr(i > 4 ? i - 4 : 0, 24)), " (", got.size(), " / ", want.size(), " bytes)")); }
+}
+
 int main(int argc, char** argv) {
 	if (const char* e = refutf::selftest()) { fprintf(stderr, "ORACLE SELF-TEST FAILED: %s\n", e); return 2; }
 	return vf::engine_main(argc, argv, "c13_encoded_streams");
